@@ -11,15 +11,15 @@ from vf.spec import spec_tensor
 OUTS = {'tensor': (None, 'tuple'), 'tuple1': (1, 'tuple'), 'tuple2': (2, 'tuple'), 'tuple3': (3, 'tuple'), 'list2': (2, 'list')}
 
 
-def make_model(name, out, n_args, max_trailing=2, require=True):
+def make_model(name, out, n_args, A, max_trailing=2, require=True):
     k, tk = OUTS[out]
     n = 1 if k is None else k
     trailing = []
     for o in range(n):
         # output o has o % 3 trailing dimensions (0, 1, 2): trailing output rank is structural
         nt = min(o % 3 + (1 if k is None else 0), max_trailing)
-        trailing.append([z3.Int('%s.o%d.t%d' % (name, o, j)) for j in range(nt)])
-    rw = RowWise(name, k, tk, trailing)
+        trailing.append([A.dim('%s.o%d.t%d' % (name, o, j)) for j in range(nt)])
+    rw = RowWise(name, k, tk, trailing, recording=A.scope is not None)
     m = Opaque(name, 'model', {'rowwise': rw, 'training': z3.Bool(name + '.training0'), 'require_eval_nograd': require,
                                'n_args': n_args, 'types': ['model']})
     return m
@@ -43,12 +43,9 @@ class Predict(Contract):
     def make_args(self, cfg, A):
         n_args = cfg['n_args']
         na = 0 if n_args == 'none' else n_args
-        model = make_model('M', cfg['out'], na)
+        model = make_model('M', cfg['out'], na, A)
         X = A.tensor('X', 3, 'int')
         A.assume(X.shape[0] >= 1)
-        for tr in model.attrs['rowwise'].trailing:
-            for d in tr:
-                A.assume(d >= 0)
         args = None
         if n_args != 'none':
             args = tuple(A.tensor('arg%d' % i, 1 + (i % 2) + 1, 'real') for i in range(na))
